@@ -30,6 +30,41 @@ Section AL.
       + exact IH.
   Qed.
 
+  Lemma gadel_keys_incl k k0 (l : list (K * V)) : In k0 (map fst (adel eqb k l)) -> In k0 (map fst l).
+  Proof.
+    induction l as [|[k' v] l IH]; cbn; auto.
+    destruct (eqb_spec k k'); cbn; auto. intros [H|H]; auto.
+  Qed.
+
+  Lemma gadel_notin k (l : list (K * V)) : ~ In k (map fst (adel eqb k l)).
+  Proof.
+    induction l as [|[k' v] l IH]; cbn; auto.
+    destruct (eqb_spec k k'); cbn; auto. intros [H|H]; auto.
+  Qed.
+
+  Lemma gadel_nodup k (l : list (K * V)) : NoDup (map fst l) -> NoDup (map fst (adel eqb k l)).
+  Proof.
+    induction l as [|[k' v] l IH]; cbn; auto. intros H. inversion H; subst.
+    destruct (eqb_spec k k'); cbn; auto. constructor; auto. intros X. apply gadel_keys_incl in X. auto.
+  Qed.
+
+  Lemma gaset_keys k k0 v (l : list (K * V)) : In k0 (map fst (aset eqb k v l)) -> k0 = k \/ In k0 (map fst l).
+  Proof.
+    induction l as [|[k' v'] l IH]; cbn; [intros [H|[]]; auto|].
+    destruct (eqb_spec k k'); cbn.
+    - intros [H|H]; auto. apply gadel_keys_incl in H. auto.
+    - intros [H|H]; auto. apply IH in H. tauto.
+  Qed.
+
+  Lemma gaset_nodup k v (l : list (K * V)) : NoDup (map fst l) -> NoDup (map fst (aset eqb k v l)).
+  Proof.
+    induction l as [|[k' v'] l IH]; cbn; intros H.
+    - constructor; [intros [] | constructor].
+    - inversion H; subst. destruct (eqb_spec k k'); cbn.
+      + subst. constructor; [apply gadel_notin | apply gadel_nodup; auto].
+      + constructor; auto. intros X. apply gaset_keys in X. destruct X; [congruence | contradiction].
+  Qed.
+
   Lemma alookup_In k v (l : list (K * V)) : alookup eqb k l = Some v -> In (k, v) l.
   Proof.
     induction l as [|[k0 v0] l IH]; cbn; [discriminate|].
@@ -200,4 +235,9 @@ Lemma pfs_step_quiet N fs c : quiet N c -> fext N fs (fst (pfs_step fs c)).
 Proof.
   intros Q. destruct (pfs_step_fst fs c) as [-> | ->]; [apply fext_bump|].
   eapply fext_trans; [apply fext_bump | apply pfs_do_quiet; auto].
+Qed.
+
+Lemma entries_resolve fs fs' p : p_entries fs' = p_entries fs -> resolve fs' p = resolve fs p.
+Proof.
+  intros E. rewrite !resolve_walk. apply walk_eq. intros. unfold entry. rewrite E. reflexivity.
 Qed.
